@@ -72,6 +72,13 @@ def cases(rng, tier):
             rng.shuffle(p)
             perms.append(render(VL.vdict(p).expr))
         yield Case(program=render(d.expr), variants=tuple(perms), tag='dict-perm', monitor='c18_expect', data=VL.spec_format(d))
+    # keys that print identically (distinct functions, actions): their entries keep the insertion order — implementation vs model
+    FN = ["(ㄱㅇㄱ ㅎ)", "(ㄴ ㅎ)", "(ㄱㅇㄱ ㄱㅇㄱ ㄷㅎㄷ ㅎ)", "(ㄷ ㄴㄱㅎㄴ)", "(ㄱ ㄴㄱㅎㄴ)", "(ㅂ ㅅ ㅅㄴ ㅂㅎㄹ)"]
+    for _ in range(40 if tier == 'quick' else 600):
+        ks = rng.sample(FN, rng.randint(2, 4)) + rng.sample(["ㄱ", "ㄴ", f"({render(gen.str_lit('z'))})"], rng.randint(0, 2))
+        rng.shuffle(ks)
+        body = " ".join(f"{kx} {enc(i)}" for i, kx in enumerate(ks))
+        yield Case(program=f"{body} ㅅㅈㅎ{enc(2 * len(ks))}", tag='dict-tie')
     # exit status = integer result; 0 for Nil; function applied to argv; I/O executed; other kinds an error
     m = 120 if tier == 'quick' else 4000
     g = gen.Gen(rng, max_depth=3)
@@ -122,7 +129,7 @@ SPEC = {
     'rule': 'integers to 10^300 printed (ㅁㅈ, top level) and read back (ㅈㅅ∘ㅁㅈ = id); finite doubles from random bit '
             'patterns, decimal fractions and known hard cases: ㅅㅅ∘ㅁㅈ = id (checked by ㄴ inside the program) and printed '
             'form = shortest round-trip form; random nested values against the documented printed form; dictionaries in '
-            'three shuffled insertion orders must print identically (sorted by printed key); cli.run: integer literal / '
+            'three shuffled insertion orders must print identically (sorted by printed key); dictionaries whose keys print identically (distinct functions) against the model (ties keep insertion order); cli.run: integer literal / '
             'expression, Nil → 0, function applied to argv, I/O executed with its output, other kinds and two expressions '
             'rejected, empty program → 0. Non-trivial: all',
     'trusted': ['repr(float) of the host as the definition of the shortest round-trip form (model: own dtoa, compared each run)'],
